@@ -730,9 +730,11 @@ if( parent_node.entries_for_sub_nodes <= parent_node.num_sub_nodes ) {
 	/** If sub-node table exists, get it **/
    if( old_num_entries > 0 ) {
       ADFI_read_sub_node_table( file_index, &parent_node.sub_node_table,
-	   sub_node_table, error_return ) ;
-      if( *error_return != NO_ERROR )
+	   old_num_entries, sub_node_table, error_return ) ;
+      if( *error_return != NO_ERROR ) {
+         free( sub_node_table ) ;
          return ;
+         } /* end if */
       } /* end if */
 
 	/** Blank out the new part of the sub-node_table **/
@@ -1704,9 +1706,11 @@ if( sub_node_table == NULL ) {
 
 if( parent_node.entries_for_sub_nodes > 0 ) {
    ADFI_read_sub_node_table( file_index, &parent_node.sub_node_table,
-	   sub_node_table, error_return ) ;
-   if( *error_return != NO_ERROR )
+	   parent_node.entries_for_sub_nodes, sub_node_table, error_return ) ;
+   if( *error_return != NO_ERROR ) {
+      free( sub_node_table ) ;
       return ;
+      } /* end if */
    } /* end if */
 
 	/** Check all names for our new name **/
@@ -2895,9 +2899,12 @@ if( sub_node_table == NULL ) {
    } /* end if */
 
 ADFI_read_sub_node_table( file_index, &parent_node.sub_node_table,
+                          parent_node.entries_for_sub_nodes,
                           sub_node_table, error_return ) ;
-if( *error_return != NO_ERROR )
+if( *error_return != NO_ERROR ) {
+   free( sub_node_table ) ;
    return ;
+   } /* end if */
 
     /** Find the child in the parent's sub-node table **/
 for( i=0, found = -1 ; i<(int)parent_node.num_sub_nodes ; i++ ) {
@@ -6964,6 +6971,13 @@ ADFI_ASCII_Hex_2_unsigned_int( 0, MAXIMUM_32_BITS, 8, &disk_node_data[ 76],
 if( *error_return != NO_ERROR )
    return ;
 
+	/** The children are listed in the sub-node table: there cannot be
+	    more of them than the table has entries **/
+if( node_header->num_sub_nodes > node_header->entries_for_sub_nodes ) {
+   *error_return = SUB_NODE_TABLE_ENTRIES_BAD ;
+   return ;
+   } /* end if */
+
 #ifdef NEW_DISK_POINTER
 ADFI_read_disk_pointer( file_index, &disk_node_data[84], &disk_node_data[92],
 	&node_header->sub_node_table, error_return ) ;
@@ -7033,17 +7047,22 @@ ADFI read sub node table:
 
 input:  const unsigned int file_index	The file index.
 input:  const struct DISK_POINTER *block_offset  Block & offset in the file.
-output: struct SUB_NODE_TABLE_ENTRY sub_node_table[] Array of SN entries.
+input:  const unsigned int num_entries	Entries in the table according to
+					the node header.
+output: struct SUB_NODE_TABLE_ENTRY sub_node_table[] Array of SN entries
+					(room for num_entries or more).
 output:	int *error_return		Error return.
 
    Possible errors:
 NO_ERROR
 NULL_POINTER
 ADF_FILE_NOT_OPENED
+SUB_NODE_TABLE_ENTRIES_BAD
 ***********************************************************************/
 void    ADFI_read_sub_node_table(
 		const unsigned int file_index,
 		const struct DISK_POINTER *block_offset,
+		const unsigned int num_entries,
 		struct SUB_NODE_TABLE_ENTRY sub_node_table[],
 		int *error_return )
 {
@@ -7075,6 +7094,14 @@ number_of_children = (unsigned int)(
       (end_of_chunk_tag.block - block_offset->block) * DISK_BLOCK_SIZE +
       (end_of_chunk_tag.offset - block_offset->offset) ) /
 		(DISK_POINTER_SIZE + ADF_NAME_LENGTH) ;
+
+	/** The length of the table on disk must agree with the number of
+	    entries recorded in the node header: the caller's array was
+	    allocated from that number **/
+if( number_of_children != num_entries ) {
+   *error_return = SUB_NODE_TABLE_ENTRIES_BAD ;
+   return ;
+   } /* end if */
 
 current_child.block = block_offset->block ;
 current_child.offset = block_offset->offset + TAG_SIZE + DISK_POINTER_SIZE ;
